@@ -5,6 +5,7 @@ R14.1  the discriminated path is exact: a present discriminator with a mapped va
        `property in data` (a null discriminator is a value, not absence)
 R14.2  first-success loops are lossless only if extra keys are rejected                      [finding on the pinned tree]
 R14.3  Union[...] is rendered in spec order with order-preserving de-duplication
+R14.6  no function of the converter memoises (functools cache / table keyed by the type) data derived from the member order of a typing construct
 R14.5  the generated get_mapping() has one entry per discriminator value (written from the spec's mapping itself)
 R14.4  discriminated aliases keep their metadata for every Union spelling the type service can produce
 """
@@ -19,8 +20,77 @@ from sa.match import Locals, conjuncts, match, names_in
 from sa.report import Report
 
 
+_R146_EXAMPLE = '''
+from functools import lru_cache
+
+@lru_cache(maxsize=None)
+def classify(union_type):
+    return tuple(a for a in get_args(union_type) if a is not type(None))
+'''
+
+
+def _order_memo_hazards(tree: ast.AST, imports=None):
+    """Functions that memoise (functools cache decorator, or a table keyed by the parameter) a result derived from the *member order*
+    of a typing construct given as parameter (`get_args(param)`): typing.Union compares and hashes without regard to member order
+    (Union[A, B] == Union[B, A]), so the first spelling's answer is served for the other one."""
+    out = []
+    n_fn = 0
+    for fn in ast.walk(tree):
+        if not isinstance(fn, (ast.FunctionDef, ast.AsyncFunctionDef)):
+            continue
+        n_fn += 1
+        params = [a.arg for a in fn.args.posonlyargs + fn.args.args + fn.args.kwonlyargs]
+        ordered = [p for p in params if any(
+            isinstance(c, ast.Call) and (dotted(c.func) or "").split(".")[-1] == "get_args" and any(isinstance(x, ast.Name) and x.id == p for a in c.args for x in ast.walk(a))
+            for c in ast.walk(fn))]
+        if not ordered:
+            continue
+        # only results that keep an order: a sequence (tuple/list display, comprehension, tuple()/list() call, a list that is appended to);
+        # order-free answers (any()/all()/bool tests, sets) are safe to share between Union[A, B] and Union[B, A]
+        appended = {c.func.value.id for c in ast.walk(fn) if isinstance(c, ast.Call) and isinstance(c.func, ast.Attribute) and c.func.attr in ("append", "extend", "insert")
+                    and isinstance(c.func.value, ast.Name)}
+        def _seq(e: ast.AST) -> bool:
+            for x in ast.walk(e):
+                if isinstance(x, (ast.Tuple, ast.List, ast.ListComp)):
+                    return True
+                if isinstance(x, ast.Call) and isinstance(x.func, ast.Name) and x.func.id in ("tuple", "list") and x.args:
+                    return True
+                if isinstance(x, ast.Name) and x.id in appended:
+                    return True
+            return False
+        if not any(isinstance(r, ast.Return) and r.value is not None and _seq(r.value) for r in ast.walk(fn)):
+            continue
+        def _deco_name(d: ast.AST) -> str:
+            nm = dotted(d.func if isinstance(d, ast.Call) else d) or ""
+            tgt = (imports or {}).get(nm.split(".")[0])
+            if tgt and tgt[1] and "." not in nm:
+                return tgt[1]  # `from functools import lru_cache as _lru`
+            return nm.split(".")[-1]
+        deco = [d for d in fn.decorator_list if _deco_name(d) in ("lru_cache", "cache", "cached_property")]
+        if deco:
+            out.append((fn, ordered[0], deco[0], "functools cache"))
+            continue
+        for st in ast.walk(fn):
+            if isinstance(st, ast.Assign) and len(st.targets) == 1 and isinstance(st.targets[0], ast.Subscript) and isinstance(st.targets[0].slice, ast.Name) and st.targets[0].slice.id in ordered \
+                    and isinstance(st.targets[0].value, (ast.Name, ast.Attribute)) and any(
+                        isinstance(r, ast.Compare) and isinstance(r.ops[0], (ast.In, ast.NotIn)) and norm(r.comparators[0]) == norm(st.targets[0].value) for r in ast.walk(fn)):
+                out.append((fn, st.targets[0].slice.id, st, f"table `{norm(st.targets[0].value)}`"))
+    return out, n_fn
+
+
 def run(repo: Repo, rep: Report, tier: str) -> None:
     conv = repo.module("core.cattrs_converter")
+    # ---------------------------------------------------------------- R14.6 no order-blind memo of a union's members
+    hz, _ = _order_memo_hazards(ast.parse(_R146_EXAMPLE))
+    rep.require(len(hz) == 1, "R14.6: the built-in positive example is no longer recognised - the rule is broken")
+    hz, n_fn = _order_memo_hazards(conv.tree, conv.imports)
+    rep.count("R14.6:functions", n_fn)
+    for fn, p, node, how in hz:
+        rep.violation("R14.6", f"{conv.relpath}:{fn.name} memoised by `{p}`", f"{conv.name}:{fn.name}|order-blind-memo|{how.split()[0]}",
+                      f"`{fn.name}` derives ordered data from `get_args({p})` and is memoised per `{p}` ({how}): typing.Union ignores member order in == and hash, so "
+                      "Union[A, B] and Union[B, A] share one entry and the second union is decoded in the first one's variant order", f"{conv.relpath}:{node.lineno}")
+    if not hz:
+        rep.ok("R14.6", f"{conv.relpath} memoised functions", f"{n_fn} functions: none memoises data derived from the member order of a type parameter", f"{conv.relpath}:1")
     su = conv.functions.get("_structure_union")
     if su is None:
         raise AnalysisError("anchor vanished: _structure_union")
